@@ -108,6 +108,53 @@ def m_fold(tr, c):
     tr.emit(f'__CPROVER_assert({done}, "BOUND fold within container capacity");')
 
 
+def _drain_into_kmap(tr, c, it: Loc, dst: Loc, clear: bool):
+    """insert every (k, v) yielded by the iterator at `it` into the keyed map at `dst`"""
+    import itermodels, mvmodels
+    p, vals, keys = dst.node.f("present"), dst.node.f("vals"), dst.node.f("keys")
+    if clear:
+        for k in range(p.cap):
+            tr.emit(f"{p.elem.name}{sub(dst.idxs + [str(k)])} = 0;")
+    tr.tmpn += 1
+    item = StructN(None, f"citem{tr.tmpn}", [], tr.cur.storage)
+    item.fields.append(tr.clone(keys.elem, f"citem{tr.tmpn}_0", [], tr.cur.storage)); item.names.append("0")
+    item.fields.append(tr.clone(vals.elem, f"citem{tr.tmpn}_1", [], tr.cur.storage)); item.names.append("1")
+    opt = tr.make_enum(None, f"copt{tr.tmpn}", [], tr.cur.storage, [("None", []), ("Some", [])])
+    opt.variants[1][1].fields.append(item)
+    opt.variants[1][1].names.append("0")
+    done = tr.tmp("_Bool", "cdone")
+    tr.emit(f"{done} = 0;")
+    cap = itermodels._iter_cap(it.node)
+    for _r in range(cap + 1):
+        tr.emit(f"if (!{done}) {{")
+        itermodels.emit_next(tr, c.inst, it, Loc(opt, []))
+        tr.emit(f"if ({tr.lv(Loc(opt.discr, []))} == 0) {{ {done} = 1; }} else {{")
+        kk = mvmodels.bound_key(tr, mvmodels.key_of(tr, VLoc(Loc(item.fields[0], []))), p.cap, "collect")
+        tr.copy(Loc(keys.elem, dst.idxs + [kk]), Loc(item.fields[0], []))
+        tr.copy(Loc(vals.elem, dst.idxs + [kk]), Loc(item.fields[1], []))
+        tr.emit(f"{p.elem.name}{sub(dst.idxs + [kk])} = 1;")
+        tr.emit("} }")
+    tr.emit(f'__CPROVER_assert({done}, "BOUND collect within container capacity");')
+
+
+@model("<Map as Iterator>::collect", doc="collect (k, v) pairs of a mapped keyed-map iteration into a keyed map")
+def m_collect_map(tr, c):
+    v = c.args[0]
+    it = v.loc if isinstance(v, VLoc) else tr.deref(v)
+    d = c.dest()
+    if not (d.node.kind == "struct" and d.node.tag == "KMap"):
+        raise TranslateError(f"collect into {d.node.name} is not modelled")
+    _drain_into_kmap(tr, c, it, d, clear=True)
+
+
+@model("<HashMap as Extend>::extend", "HashMap::extend", doc="extend a keyed map with (k, v) pairs of an iterator")
+def m_map_extend(tr, c):
+    m = self_loc(tr, c.args[0], "KMap")
+    v = c.args[1]
+    it = v.loc if isinstance(v, VLoc) else tr.deref(v)
+    _drain_into_kmap(tr, c, it, m, clear=False)
+
+
 def install(tr):
     tm = tr.type_models
     tm.setdefault("RwLock", t_mutex)
